@@ -11,7 +11,7 @@ import itertools
 import random
 
 from vmon import env  # noqa: F401
-from vmon.simkit import Mon, Top
+from vmon.simkit import Mon, Top, spell_features
 
 from amaranth import Module, Shape, unsigned, signed, Elaboratable
 from amaranth.hdl import Fragment
@@ -109,7 +109,7 @@ def build_component(kind, rng, P):
     if kind == "wbdec":
         aw = rng.choice([0, 1, 4, 10, 30])
         P.update(aw=aw, dw=dw, gran=gran, features=sorted(feats))
-        c = wishbone.Decoder(addr_width=aw, data_width=dw, granularity=gran, features=feats)
+        c = wishbone.Decoder(addr_width=aw, data_width=dw, granularity=gran, features=spell_features(rng, feats))
         return c, [(c.bus, wishbone.Signature(addr_width=aw, data_width=dw, granularity=gran, features=feats), "target")]
     if kind == "wbbridge":
         cdw = rng.choice([8, 16, 32, 64])
@@ -131,7 +131,7 @@ def build_component(kind, rng, P):
     if kind == "arb":
         aw = rng.choice([0, 4, 16])
         P.update(aw=aw, dw=dw, gran=gran, features=sorted(feats))
-        c = wishbone.Arbiter(addr_width=aw, data_width=dw, granularity=gran, features=feats)
+        c = wishbone.Arbiter(addr_width=aw, data_width=dw, granularity=gran, features=spell_features(rng, feats))
         for i in range(rng.randint(1, 3)):
             c.add(wishbone.Interface(addr_width=aw, data_width=dw, granularity=gran, features=feats | {"err", "rty"} & feats,
                                      path=(f"i{i}",)))
